@@ -405,6 +405,10 @@ def _accessor_snapshot(m, g, boxes, locs):
                     out['edges_nbrto'][(a, b)] = sorted((l1, tuple(p1), l2, tuple(p2)) for l1, p1, l2, p2 in m.edges_nbrto((a, b)) if l1 != l2)
         out['all_edges'] = sorted((a, tuple(pa), b, tuple(pb)) for a, pa, b, pb in m.all_edges())
         out['all_nodes'] = sorted((k, tuple(p)) for k, p in m.all_nodes())
+        # the listings consumed lazily, with other queries on the same map in between (what a caller does who walks over the
+        # edges and looks at the neighbours of each): the listing must not be cut short by the queries inside the loop
+        out['all_edges_with_queries_in_the_loop'] = sorted((a, b, len([x for x in m.nodes_nbrto(b) if x[0] != b])) for a, pa, b, pb in m.all_edges())
+        out['all_nodes_with_queries_in_the_loop'] = sorted((k, tuple(m.node_coordinates(k)), m.size()) for k, p in m.all_nodes())
         out['bb'] = tuple(m.bb())
         out['all_nodes_bb'] = [sorted((k, tuple(p)) for k, p in m.all_nodes(bb=bx)) for bx in boxes]
         out['nodes_closeto'] = [sorted((round(d, 9), k) for d, k, p in m.nodes_closeto(loc, max_dist=r)) for loc, r in locs]
